@@ -124,7 +124,7 @@ func Mutate(r *core.Rand, o *Out) (m Mutant, ok bool) {
 		ls = append(ls[:i+1], append([]srcLine{l}, ls[i+1:]...)...)
 	}
 
-	switch op := r.Intn(16); op {
+	switch op := r.Intn(18); op {
 	case 0: // malformed / non-Gregorian date
 		i, _ := pick(heads)
 		old := ls[i].text
@@ -338,6 +338,61 @@ func Mutate(r *core.Rand, o *Out) (m Mutant, ok bool) {
 		}
 		ls[i].text = other + ls[i].text[len(ind):]
 		set("mixed-indentation", i)
+	case 17: // two faults in ONE record: a second open range and, further down, a malformed entry (errors must stay in line order)
+		var cands []int
+		for _, i := range entries {
+			li := o.Lines[i]
+			rc := o.Doc.Recs[li.Rec]
+			if rc.OpenIndex() == li.Ent && li.Ent < len(rc.Entries)-1 {
+				cands = append(cands, i)
+			}
+		}
+		if len(cands) == 0 {
+			return m, false
+		}
+		i := cands[r.Intn(len(cands))]
+		rec := o.Lines[i].Rec
+		ind := indentOf(rec)
+		j := i
+		for j+1 < len(o.Lines) && o.Lines[j+1].Kind == LEntryCont {
+			j++
+		}
+		// after the open range (and its continuation lines): another open range with its own continuation line, then a bad value on the record's last entry
+		last := j
+		for k := j + 1; k < len(o.Lines) && o.Lines[k].Rec == rec; k++ {
+			last = k
+		}
+		lastEntry := last
+		for lastEntry > j && o.Lines[lastEntry].Kind != LEntry {
+			lastEntry--
+		}
+		if lastEntry <= j {
+			return m, false
+		}
+		ls[lastEntry].text = ind + r.Pick("25:00 - 26:00", "1h60m", "garbage", "8:00 -")
+		for k := lastEntry + 1; k <= last; k++ {
+			ls[k].text = ind + ind + "x" // keep continuation lines harmless
+		}
+		insertAfter(j, srcLine{text: ind + "11:00 - ?? second"})
+		insertAfter(j+1, srcLine{text: ind + ind + "with a continuation line"})
+		set("second-open-range-then-bad-entry", j+1)
+	case 16: // stray carriage return at the end of a headline or of an entry's value (not part of a CRLF)
+		var cands []int
+		for _, h := range heads {
+			cands = append(cands, h)
+		}
+		for _, i := range entries {
+			li := o.Lines[i]
+			if sm := o.Doc.Recs[li.Rec].Entries[li.Ent].Summary; len(sm) > 0 && sm[0] == "" {
+				cands = append(cands, i)
+			}
+		}
+		i := cands[r.Intn(len(cands))]
+		if strings.HasSuffix(ls[i].text, " ") || strings.HasSuffix(ls[i].text, "\t") {
+			return m, false
+		}
+		ls[i].text += r.Pick("\r", "\r\r", "\r")
+		set("stray-carriage-return", i)
 	case 15: // duplicate the headline inside the record (extra text block without blank line)
 		i, has := pick(entries)
 		if !has {
